@@ -83,6 +83,10 @@ func GenArg(t *rapid.T, ty lang.Ty, label string) *lang.Expr {
 	case lang.TRec:
 		return lang.Map([]string{"a", "b"}, []*lang.Expr{lang.Int(rapid.IntRange(-3, 9).Draw(t, label+"a")), lang.Int(rapid.IntRange(-3, 9).Draw(t, label+"b"))})
 	}
+	if ty == lang.TFn1 {
+		k, c := rapid.IntRange(-2, 3).Draw(t, label+"k"), rapid.IntRange(-3, 5).Draw(t, label+"c")
+		return lang.Lam([]string{"e"}, lang.Bin("+", lang.Bin("*", lang.Var("e"), lang.Int(k)), lang.Int(c)))
+	}
 	panic("GenArg: no literal for type " + string(ty))
 }
 
